@@ -150,11 +150,27 @@ where
     }
 }
 
+/// Verification hook (compiled only with --cfg chialisp_verif): report the step of the
+/// output-writing routine being reached, and die there when asked to.
+#[cfg(chialisp_verif)]
+pub fn verif_crash_point(point: &str) {
+    if let Ok(trace) = std::env::var("CHIALISP_VERIF_TRACE") {
+        if let Ok(mut f) = fs::OpenOptions::new().create(true).append(true).open(trace) {
+            let _ = writeln!(f, "{point}");
+        }
+    }
+    if std::env::var("CHIALISP_VERIF_CRASH_AT").ok().as_deref() == Some(point) {
+        std::process::abort();
+    }
+}
+
 pub fn atomic_write_file(
     input_path: &str,
     output_path: &str,
     target_data: &str,
 ) -> Result<(), String> {
+    #[cfg(chialisp_verif)]
+    verif_crash_point("atomic:entry");
     let output_path_obj = Path::new(output_path);
     let output_dir = output_path_obj
         .parent()
@@ -166,6 +182,8 @@ pub fn atomic_write_file(
     let mut temp_output_file = NamedTempFile::new_in(output_dir)
         .map_err(|e| format!("error creating temporary compiler output for {input_path}: {e:?}"))?;
 
+    #[cfg(chialisp_verif)]
+    verif_crash_point("atomic:temp_created");
     let err_text = format!("failed to write to {:?}", temp_output_file.path());
     let translate_err = |_| err_text.clone();
 
@@ -173,10 +191,14 @@ pub fn atomic_write_file(
         .write_all(target_data.as_bytes())
         .map_err(translate_err)?;
 
+    #[cfg(chialisp_verif)]
+    verif_crash_point("atomic:written");
     temp_output_file
         .persist(output_path)
         .map_err(|e| format!("error persisting temporary compiler output {output_path}: {e:?}"))?;
 
+    #[cfg(chialisp_verif)]
+    verif_crash_point("atomic:persisted");
     Ok(())
 }
 
@@ -185,7 +207,11 @@ pub fn gentle_overwrite(
     output_path: &str,
     target_data: &str,
 ) -> Result<(), String> {
+    #[cfg(chialisp_verif)]
+    verif_crash_point("gentle:entry");
     if let Ok(prev_content) = fs::read_to_string(output_path) {
+        #[cfg(chialisp_verif)]
+        verif_crash_point("gentle:read_previous");
         let prev_trimmed = prev_content.trim();
         let trimmed = target_data.trim();
         if prev_trimmed == trimmed {
@@ -194,6 +220,8 @@ pub fn gentle_overwrite(
             // the scenario where a target file is newer and people want the
             // date to be updated.
             atomic_write_file(input_path, output_path, target_data).ok();
+            #[cfg(chialisp_verif)]
+            verif_crash_point("gentle:same_content_done");
 
             // It's the same program, bail regardless.
             return Ok(());
